@@ -58,7 +58,8 @@ func invalidFor(fd protoreflect.FieldDescriptor) []any {
 		if fd.Message().FullName() == "google.protobuf.Timestamp" {
 			switch model.TimestampFormat(fd) {
 			case sebufhttp.TimestampFormat_TIMESTAMP_FORMAT_UNIX_SECONDS, sebufhttp.TimestampFormat_TIMESTAMP_FORMAT_UNIX_MILLIS:
-				return []any{"x", obj, true, arr}
+				// counts no google.protobuf.Timestamp can hold (its range ends with the year 9999) are not values of the field either
+				return []any{"x", obj, true, arr, model.Num("900000000000000000"), model.Num("-900000000000000000"), model.Num("1e40")}
 			case sebufhttp.TimestampFormat_TIMESTAMP_FORMAT_DATE:
 				return []any{"2024-13-45", model.Num("5"), obj, "yesterday"}
 			}
